@@ -117,6 +117,19 @@ def gen(tier, seed):
         for u in NUM_UN:
             inner = ("un", u, ("ref", "a"))
             trees.append(("twin", ("bin", op1, inner, inner)))
+    # a unary sign below two binary operators, in each of the four operand positions, and below a second sign
+    A, B, C = ("ref", "a"), ("ref", "b"), ("ref", "i")
+    for op1, op2 in itertools.product(NUM_BIN, NUM_BIN):
+        for u in NUM_UN:
+            ub = ("un", u, B)
+            trees.append(("unchain", ("bin", op1, A, ("bin", op2, ub, C))))
+            trees.append(("unchain", ("bin", op1, ("bin", op2, ub, C), A)))
+            trees.append(("unchain", ("bin", op1, A, ("bin", op2, C, ub))))
+            trees.append(("unchain", ("bin", op1, ("bin", op2, C, ub), A)))
+    for op2 in NUM_BIN:
+        for u, u2 in itertools.product(NUM_UN, NUM_UN):
+            trees.append(("unchain", ("un", u2, ("bin", op2, ("un", u, B), C))))
+            trees.append(("unchain", ("bin", "POW", A, ("bin", "POW", C, ("bin", op2, ("un", u, B), A)))))
     n3 = 1500 if tier == "quick" else 20000
     for _ in range(n3):
         trees.append(("rand3", random_tree(rnd, 3, rnd.random() < 0.3)))
